@@ -31,3 +31,11 @@ mod c09_comb;
 mod c11_iface;
 #[cfg(kani)]
 mod c11_set;
+#[cfg(kani)]
+mod c19_unsafe;
+#[cfg(feature = "serde")]
+pub mod tok;
+#[cfg(all(kani, feature = "serde"))]
+mod c13_serde;
+#[cfg(kani)]
+mod c20_width;
